@@ -583,21 +583,21 @@ def oracle(case, o):
             letters = {("X" if (p["z"][k], p["x"][k]) == (0, 1) else "Y" if (p["z"][k], p["x"][k]) == (1, 1) else "Z") for k in sup}
             key = ("".join(sorted(letters)), sup)
             if p["q"] != 0 or len(letters) != 1 or key in got:
-                bad.append((f"C15:terms:{cls}:{latcls}", f"unexpected or repeated string {p} (edge list from {src})"))
+                bad.append((f"C15:terms:{cls}", f"unexpected or repeated string {p} (edge list from {src})"))
                 return bad
             got[key] = float(frac(w))
         if got != want:
             miss = [k for k in want if k not in got][:3]
             extra = [k for k in got if k not in want][:3]
             diff = [(k, got[k], want[k]) for k in want if k in got and got[k] != want[k]][:3]
-            bad.append((f"C15:terms:{cls}:{latcls}", f"terms are not 'every edge once + every site once' (edge list from {src}): missing {miss}, "
+            bad.append((f"C15:terms:{cls}", f"terms are not 'every edge once + every site once' (edge list from {src}): missing {miss}, "
                         f"extra {extra}, wrong weight {diff}"))
         if "_M" in o:
             ref = ref_spin(L, E, two, one)
             if not finite(o["_M"].toarray()):
                 bad.append((f"C15:matrix-nan:{cls}", "as_matrix() contains NaN/Inf"))
             elif not mat_close(o["_M"], ref):
-                bad.append((f"C15:matrix:{cls}:{latcls}", f"as_matrix() differs from the edge/site sum by {dmax(o['_M'] - ref):.3g} (edge list from {src})"))
+                bad.append((f"C15:matrix:{cls}", f"as_matrix() differs from the edge/site sum by {dmax(o['_M'] - ref):.3g} (edge list from {src})"))
             if "_Mop" in o and not mat_close(o["_Mop"], o["_M"]):
                 bad.append((f"C15:matrix-views:{cls}", "as_matrix() != as_pauli_operator().as_matrix()"))
             if o["herm"] and not mat_close(o["_M"].conj().T, o["_M"]):
@@ -652,10 +652,10 @@ def oracle(case, o):
         wantV = {k: v for k, v in dens.items() if v != 0}
         if gotT != wantT or terms[0]["shape"] != [L, L]:
             d = [k for k in set(gotT) ^ set(wantT)][:4] or [(k, gotT[k], wantT[k]) for k in wantT if gotT.get(k) != wantT[k]][:4]
-            bad.append((f"C15:hubbard-kinetic:{mode}:{case['lat']['cls']}", f"kinetic coefficients are not -t on every edge (per spin layer): {d} (edge list from {src})"))
+            bad.append((f"C15:hubbard-kinetic:{mode}", f"kinetic coefficients are not -t on every edge (per spin layer): {d} (edge list from {src})"))
         if gotV != wantV or terms[1]["shape"] != [L] * 4:
             d = [k for k in set(gotV) ^ set(wantV)][:4] or [(k, gotV[k], wantV[k]) for k in wantV if gotV.get(k) != wantV[k]][:4]
-            bad.append((f"C15:hubbard-interaction:{mode}:{case['lat']['cls']}", f"interaction coefficients are not u on "
+            bad.append((f"C15:hubbard-interaction:{mode}", f"interaction coefficients are not u on "
                         f"{'(i,i,i+L/2,i+L/2)' if case['spin'] else '(i,i,j,j) for every edge i<j'}: {d}"))
         if "_M" in o:
             cl, al, N = ladders(L)
